@@ -30,7 +30,7 @@ mod imp {
     use shred::{ParSeq, World};
     use shredh::{
         parseqx::{
-            assign_access, build_tree, dispatch_controlled, gen_shape, mk_leaf, node_acc, Caller, DynNode, GenCfg, NodeSpec,
+            assign_access, build_tree, dispatch_controlled, gen_shape, mk_leaf, Caller, DynNode, GenCfg, NodeSpec,
             PCtx, PLeaf, RunStats, Sched, Timing, TreeSpec,
         },
         record::write_events,
@@ -142,8 +142,8 @@ mod imp {
         let mut ps = ParSeq::new(root, pool);
         for _ in 0..setups {
             ctx.ev(json!({"ev":"setup_begin"}));
-            ps.setup(&mut world);
-            ctx.ev(json!({"ev":"setup_end"}));
+            let r = catch_unwind(AssertUnwindSafe(|| ps.setup(&mut world)));
+            ctx.ev(json!({"ev":"setup_end","out": if r.is_ok() {"ok"} else {"panic"}}));
         }
         if setups == 0 {
             // resources must exist; insert them directly
@@ -164,6 +164,7 @@ mod imp {
     /// run-time construction from the real nodes + the `built` event
     fn build_logged(spec: &TreeSpec, ctx: &Arc<PCtx>, evs: &mut Vec<Value>) -> Option<DynNode> {
         let root = build_tree(spec, 1, ctx, evs, true);
+        // (which `with` failed, and how, is in the `with` events; `built` says whether a tree exists)
         evs.push(json!({"ev":"built","out": if root.is_some() {"ok"} else {"panic"}}));
         root
     }
@@ -357,10 +358,10 @@ mod imp {
                     panics += 1;
                     !model_ready
                 }
-                Some(r) => {
-                    let (rr, ww) = node_acc(r);
-                    model_ready && json!(rr) == b["reads"] && json!(ww) == b["writes"]
-                }
+                Some(r) => match shredh::parseqx::node_acc_checked(r) {
+                    Some((rr, ww)) => model_ready && json!(rr) == b["reads"] && json!(ww) == b["writes"],
+                    None => false,
+                },
             };
             if ok {
                 matched += 1;
@@ -421,15 +422,17 @@ mod imp {
                     ctor(&mut mk)
                 }));
                 match built {
-                    Err(_) => {
+                    Err(e) => {
                         tot.with_panics += 1;
-                        evs.push(json!({"ev":"built","out":"panic","made":made}));
+                        evs.push(json!({"ev":"built","out":shredh::parseqx::panic_kind(&e),"made":made}));
                     }
                     Ok(root) => {
                         tot.built += 1;
                         evs.push(json!({"ev":"built","out":"ok","made":made}));
-                        let (r, wv) = node_acc(&root);
-                        evs.push(json!({"ev":"acc","n":1,"r":r,"w":wv}));
+                        match shredh::parseqx::node_acc_checked(&root) {
+                            Some((r, wv)) => evs.push(json!({"ev":"acc","n":1,"out":"ok","r":r,"w":wv})),
+                            None => evs.push(json!({"ev":"acc","n":1,"out":"panic","r":[],"w":[]})),
+                        }
                         let threads = rng.gen_range(1..=8);
                         let caller = pick_caller(&mut rng);
                         let mut r2 = StdRng::seed_from_u64(rng.gen());
